@@ -83,6 +83,17 @@ func makePattern(i int, rng *rand.Rand, mix [3]int, optP int) *patCase {
 			return nil
 		}
 		return &patCase{src: p.Src, opts: opts, pat: p, origin: "template:threshold-count"}
+	case i%40 == 9 && mix[0] > 0:
+		// two narrow families get a fixed share: references to explicitly numbered groups with holes
+		// in the numbering, and balancing groups whose pop can fail after their body matched
+		name := []string{"sparse-numbered-ref", "balancing-ending"}[(i/40)%2]
+		t := &gen.T{R: rng, Let: []rune("abc")}
+		opts &^= int(regexp2.ECMAScript | regexp2.Unicode | regexp2.RE2 | regexp2.ExplicitCapture)
+		p := gen.Finish(t.Template(templateIndex(name)), envOf(opts), false, gen.PrintOpts{})
+		if p == nil {
+			return nil
+		}
+		return &patCase{src: p.Src, opts: opts, pat: p, origin: "template:" + name}
 	case pick < mix[0]:
 		t := &gen.T{R: rng, Let: fullProfile(rng).Letters}
 		k := rng.Intn(len(gen.TemplateNames))
@@ -109,6 +120,15 @@ func makePattern(i int, rng *rand.Rand, mix [3]int, optP int) *patCase {
 		}
 		return &patCase{src: cp.Src, opts: o, origin: "corpus:" + cp.From, corp: cp}
 	}
+}
+
+func templateIndex(name string) int {
+	for i, n := range gen.TemplateNames {
+		if n == name {
+			return i
+		}
+	}
+	return 0
 }
 
 // offsetStep is the distance to the next start offset tried on an input of n runes: every
